@@ -1,4 +1,4 @@
-import BaoModel.Ops2
+import BaoModel.Ops3
 
 open Bao Bao.Ops
 
@@ -24,6 +24,8 @@ def dispatch (op : String) (args : List String) (impl : String) : Verdict :=
   | "baocmp" => opBaoCmp args impl
   | "obpre" => opObPre args impl
   | "enc2" => opEnc2 args impl
+  | "valid" => opValid args impl
+  | "hist" => opHist args impl
   | _ => bad s!"unknown op {op}"
 
 /-- one input line `op arg ... | impl output` → one verdict line
